@@ -598,7 +598,8 @@ func (c *DutiesCache) SyncCommDutiesCache(ctx context.Context, epoch eth2p0.Epoc
 
 		for _, d := range dutiesForEpoch.duties {
 			if _, hit := requestedSet[d.ValidatorIndex]; hit {
-				dutiesResult = append(dutiesResult, &d)
+				// The committee indices slice must not be shared between the cache and its callers.
+				dutiesResult = append(dutiesResult, cloneSyncCommDuty(d))
 			}
 		}
 
@@ -628,8 +629,7 @@ func (c *DutiesCache) SyncCommDutiesCache(ctx context.Context, epoch eth2p0.Epoc
 			return SyncDutyWithMeta{}, errors.New("sync committee duty is nil")
 		}
 
-		d := *duty
-		dutiesDeref = append(dutiesDeref, d)
+		dutiesDeref = append(dutiesDeref, *cloneSyncCommDuty(*duty))
 	}
 
 	_, ok = c.storeOrAmendSyncDuties(epoch, SyncDutiesForEpoch{duties: dutiesDeref, metadata: eth2Resp.Metadata, requestedIdxs: requestVidxs})
@@ -640,6 +640,15 @@ func (c *DutiesCache) SyncCommDutiesCache(ctx context.Context, epoch eth2p0.Epoc
 	dutiesResult = append(dutiesResult, eth2Resp.Data...)
 
 	return SyncDutyWithMeta{Duties: dutiesResult, Metadata: eth2Resp.Metadata}, nil
+}
+
+// cloneSyncCommDuty returns a deep copy of the sync committee duty.
+func cloneSyncCommDuty(d eth2v1.SyncCommitteeDuty) *eth2v1.SyncCommitteeDuty {
+	return &eth2v1.SyncCommitteeDuty{
+		PubKey:                        d.PubKey,
+		ValidatorIndex:                d.ValidatorIndex,
+		ValidatorSyncCommitteeIndices: slices.Clone(d.ValidatorSyncCommitteeIndices),
+	}
 }
 
 // fetchProposerDuties returns the cached proposer duties and true if they are available.
